@@ -59,3 +59,170 @@ package gonum
 //@ valid incX != 0 && n >= 0 && (incX < 0 || vec(x, n, incX))
 //@ panics iff !valid, before-writes
 //@ writes x[k*incX] for k in 0..n if incX > 0
+
+// ---- Level 2 ------------------------------------------------------------------
+
+//@ spec flagT(t int) bool = t == blas.NoTrans || t == blas.Trans || t == blas.ConjTrans
+//@ spec flagUL(u int) bool = u == blas.Upper || u == blas.Lower
+//@ spec flagD(d int) bool = d == blas.NonUnit || d == blas.Unit
+//@ spec flagS(s int) bool = s == blas.Left || s == blas.Right
+//@ spec ge(a []float64, r int, c int, ld int) bool = len(a) >= ld*(r-1)+c
+
+//@ func Implementation.Dger Implementation.Sger props: C01(frame) C07(safety)
+//@ valid m >= 0 && n >= 0 && lda >= max(1, n) && incX != 0 && incY != 0 &&
+//@       (m == 0 || n == 0 || (vec(x, m, incX) && vec(y, n, incY) && ge(a, m, n, lda)))
+//@ panics iff !valid, before-writes
+//@ writes a[i*lda+j] for i in 0..m, j in 0..n
+
+//@ func Implementation.Dgemv Implementation.Sgemv props: C01(frame) C07(safety)
+//@ let lenX = ite(tA == blas.NoTrans, n, m)
+//@ let lenY = ite(tA == blas.NoTrans, m, n)
+//@ valid flagT(tA) && m >= 0 && n >= 0 && lda >= max(1, n) && incX != 0 && incY != 0 &&
+//@       (m == 0 || n == 0 || (ge(a, m, n, lda) && vec(x, lenX, incX) && vec(y, lenY, incY)))
+//@ panics iff !valid, before-writes
+//@ writes y[start(lenY,incY)+k*incY] for k in 0..lenY
+
+//@ func Implementation.Dgbmv Implementation.Sgbmv props: C01(frame) C07(safety)
+//@ let lenX = ite(tA == blas.NoTrans, n, m)
+//@ let lenY = ite(tA == blas.NoTrans, m, n)
+//@ valid flagT(tA) && m >= 0 && n >= 0 && kL >= 0 && kU >= 0 && lda >= kL+kU+1 && incX != 0 && incY != 0 &&
+//@       (m == 0 || n == 0 || (len(a) >= lda*(min(m, n+kL)-1)+kL+kU+1 && vec(x, lenX, incX) && vec(y, lenY, incY)))
+//@ panics iff !valid, before-writes
+//@ writes y[start(lenY,incY)+k*incY] for k in 0..lenY
+
+//@ func Implementation.Dtrmv Implementation.Strmv Implementation.Dtrsv Implementation.Strsv props: C01(frame) C07(safety)
+//@ valid flagUL(ul) && flagT(tA) && flagD(d) && n >= 0 && lda >= max(1, n) && incX != 0 &&
+//@       (n == 0 || (ge(a, n, n, lda) && vec(x, n, incX)))
+//@ panics iff !valid, before-writes
+//@ writes x[start(n,incX)+k*incX] for k in 0..n
+
+//@ func Implementation.Dtbmv Implementation.Stbmv Implementation.Dtbsv Implementation.Stbsv props: C01(frame) C07(safety)
+//@ valid flagUL(ul) && flagT(tA) && flagD(d) && n >= 0 && k >= 0 && lda >= k+1 && incX != 0 &&
+//@       (n == 0 || (len(a) >= lda*(n-1)+k+1 && vec(x, n, incX)))
+//@ panics iff !valid, before-writes
+//@ writes x[start(n,incX)+j*incX] for j in 0..n
+
+//@ func Implementation.Dtpmv Implementation.Stpmv Implementation.Dtpsv Implementation.Stpsv props: C01(frame) C07(safety)
+//@ valid flagUL(ul) && flagT(tA) && flagD(d) && n >= 0 && incX != 0 &&
+//@       (n == 0 || (len(ap) >= n*(n+1)/2 && vec(x, n, incX)))
+//@ panics iff !valid, before-writes
+//@ writes x[start(n,incX)+k*incX] for k in 0..n
+
+//@ func Implementation.Dsymv Implementation.Ssymv props: C01(frame) C07(safety)
+//@ valid flagUL(ul) && n >= 0 && lda >= max(1, n) && incX != 0 && incY != 0 &&
+//@       (n == 0 || (ge(a, n, n, lda) && vec(x, n, incX) && vec(y, n, incY)))
+//@ panics iff !valid, before-writes
+//@ writes y[start(n,incY)+k*incY] for k in 0..n
+
+//@ func Implementation.Dsbmv Implementation.Ssbmv props: C01(frame) C07(safety)
+//@ valid flagUL(ul) && n >= 0 && k >= 0 && lda >= k+1 && incX != 0 && incY != 0 &&
+//@       (n == 0 || (len(a) >= lda*(n-1)+k+1 && vec(x, n, incX) && vec(y, n, incY)))
+//@ panics iff !valid, before-writes
+//@ writes y[start(n,incY)+j*incY] for j in 0..n
+//@ witness i-k+j
+
+//@ func Implementation.Dspmv Implementation.Sspmv props: C01(frame) C07(safety)
+//@ valid flagUL(ul) && n >= 0 && incX != 0 && incY != 0 &&
+//@       (n == 0 || (len(ap) >= n*(n+1)/2 && vec(x, n, incX) && vec(y, n, incY)))
+//@ panics iff !valid, before-writes
+//@ writes y[start(n,incY)+k*incY] for k in 0..n
+
+//@ func Implementation.Dsyr Implementation.Ssyr props: C01(frame) C07(safety)
+//@ valid flagUL(ul) && n >= 0 && lda >= max(1, n) && incX != 0 &&
+//@       (n == 0 || (vec(x, n, incX) && ge(a, n, n, lda)))
+//@ panics iff !valid, before-writes
+//@ writes a[i*lda+j] for i in 0..n, j in 0..n if (ul == blas.Upper && j >= i) || (ul == blas.Lower && j <= i)
+
+//@ func Implementation.Dsyr2 Implementation.Ssyr2 props: C01(frame) C07(safety)
+//@ valid flagUL(ul) && n >= 0 && lda >= max(1, n) && incX != 0 && incY != 0 &&
+//@       (n == 0 || (vec(x, n, incX) && vec(y, n, incY) && ge(a, n, n, lda)))
+//@ panics iff !valid, before-writes
+//@ writes a[i*lda+j] for i in 0..n, j in 0..n if (ul == blas.Upper && j >= i) || (ul == blas.Lower && j <= i)
+
+//@ func Implementation.Dspr Implementation.Sspr props: C01(frame) C07(safety)
+//@ valid flagUL(ul) && n >= 0 && incX != 0 &&
+//@       (n == 0 || (vec(x, n, incX) && len(ap) >= n*(n+1)/2))
+//@ panics iff !valid, before-writes
+//@ writes ap[k] for k in 0..n*(n+1)/2
+
+//@ func Implementation.Dspr2 Implementation.Sspr2 props: C01(frame) C07(safety)
+//@ valid flagUL(ul) && n >= 0 && incX != 0 && incY != 0 &&
+//@       (n == 0 || (vec(x, n, incX) && vec(y, n, incY) && len(ap) >= n*(n+1)/2))
+//@ panics iff !valid, before-writes
+//@ writes ap[k] for k in 0..n*(n+1)/2
+
+// ---- Level 3 ------------------------------------------------------------------
+
+//@ func Implementation.Dgemm Implementation.Sgemm props: C01(frame) C07(safety)
+//@ let aT = tA != blas.NoTrans
+//@ let bT = tB != blas.NoTrans
+//@ let rowA = ite(aT, k, m)
+//@ let colA = ite(aT, m, k)
+//@ let rowB = ite(bT, n, k)
+//@ let colB = ite(bT, k, n)
+//@ valid flagT(tA) && flagT(tB) && m >= 0 && n >= 0 && k >= 0 &&
+//@       lda >= max(1, colA) && ldb >= max(1, colB) && ldc >= max(1, n) &&
+//@       (m == 0 || n == 0 || (ge(a, rowA, colA, lda) && ge(b, rowB, colB, ldb) && ge(c, m, n, ldc)))
+//@ panics iff !valid, before-writes
+//@ writes c[i*ldc+j] for i in 0..m, j in 0..n
+
+//@ func dgemmParallel sgemmParallel dgemmSerial sgemmSerial props: C01(frame) C07(safety) C09
+//@ let rowA = ite(aTrans, k, m)
+//@ let colA = ite(aTrans, m, k)
+//@ let rowB = ite(bTrans, n, k)
+//@ let colB = ite(bTrans, k, n)
+//@ requires m >= 0 && n >= 0 && k >= 0 && lda >= max(1, colA) && ldb >= max(1, colB) && ldc >= max(1, n)
+//@ requires ge(a, rowA, colA, lda) && ge(b, rowB, colB, ldb) && ge(c, m, n, ldc) && (m == 0 || n > 0)
+//@ writes c[i*ldc+j] for i in 0..m, j in 0..n
+
+//@ func dgemmSerialNotNot sgemmSerialNotNot props: C01(frame) C07(safety)
+//@ requires m >= 0 && n >= 0 && k >= 0 && lda >= max(1, k) && ldb >= max(1, n) && ldc >= max(1, n)
+//@ requires ge(a, m, k, lda) && ge(b, k, n, ldb) && ge(c, m, n, ldc)
+//@ writes c[i*ldc+j] for i in 0..m, j in 0..n
+
+//@ func dgemmSerialTransNot sgemmSerialTransNot props: C01(frame) C07(safety)
+//@ requires m >= 0 && n >= 0 && k >= 0 && lda >= max(1, m) && ldb >= max(1, n) && ldc >= max(1, n)
+//@ requires ge(a, k, m, lda) && ge(b, k, n, ldb) && ge(c, m, n, ldc)
+//@ writes c[i*ldc+j] for i in 0..m, j in 0..n
+
+//@ func dgemmSerialNotTrans sgemmSerialNotTrans props: C01(frame) C07(safety)
+//@ requires m >= 0 && n >= 0 && k >= 0 && lda >= max(1, k) && ldb >= max(1, k) && ldc >= max(1, n)
+//@ requires ge(a, m, k, lda) && ge(b, n, k, ldb) && ge(c, m, n, ldc)
+//@ writes c[i*ldc+j] for i in 0..m, j in 0..n
+
+//@ func dgemmSerialTransTrans sgemmSerialTransTrans props: C01(frame) C07(safety)
+//@ requires m >= 0 && n >= 0 && k >= 0 && lda >= max(1, m) && ldb >= max(1, k) && ldc >= max(1, n)
+//@ requires ge(a, k, m, lda) && ge(b, n, k, ldb) && ge(c, m, n, ldc) && (m == 0 || n > 0)
+//@ writes c[i*ldc+j] for i in 0..m, j in 0..n
+
+//@ func Implementation.Dtrsm Implementation.Strsm Implementation.Dtrmm Implementation.Strmm props: C01(frame) C07(safety)
+//@ let ka = ite(s == blas.Left, m, n)
+//@ valid flagS(s) && flagUL(ul) && flagT(tA) && flagD(d) && m >= 0 && n >= 0 &&
+//@       lda >= max(1, ka) && ldb >= max(1, n) &&
+//@       (m == 0 || n == 0 || (ge(a, ka, ka, lda) && ge(b, m, n, ldb)))
+//@ panics iff !valid, before-writes
+//@ writes b[i*ldb+j] for i in 0..m, j in 0..n
+
+//@ func Implementation.Dsymm Implementation.Ssymm props: C01(frame) C07(safety)
+//@ let ka = ite(s == blas.Left, m, n)
+//@ valid flagS(s) && flagUL(ul) && m >= 0 && n >= 0 &&
+//@       lda >= max(1, ka) && ldb >= max(1, n) && ldc >= max(1, n) &&
+//@       (m == 0 || n == 0 || (ge(a, ka, ka, lda) && ge(b, m, n, ldb) && ge(c, m, n, ldc)))
+//@ panics iff !valid, before-writes
+//@ writes c[i*ldc+j] for i in 0..m, j in 0..n
+
+//@ func Implementation.Dsyrk Implementation.Ssyrk props: C01(frame) C07(safety)
+//@ let row = ite(tA == blas.NoTrans, n, k)
+//@ let col = ite(tA == blas.NoTrans, k, n)
+//@ valid flagUL(ul) && flagT(tA) && n >= 0 && k >= 0 && lda >= max(1, col) && ldc >= max(1, n) &&
+//@       (n == 0 || (ge(a, row, col, lda) && ge(c, n, n, ldc)))
+//@ panics iff !valid, before-writes
+//@ writes c[i*ldc+j] for i in 0..n, j in 0..n if (ul == blas.Upper && j >= i) || (ul == blas.Lower && j <= i)
+
+//@ func Implementation.Dsyr2k Implementation.Ssyr2k props: C01(frame) C07(safety)
+//@ let row = ite(tA == blas.NoTrans, n, k)
+//@ let col = ite(tA == blas.NoTrans, k, n)
+//@ valid flagUL(ul) && flagT(tA) && n >= 0 && k >= 0 && lda >= max(1, col) && ldb >= max(1, col) && ldc >= max(1, n) &&
+//@       (n == 0 || (ge(a, row, col, lda) && ge(b, row, col, ldb) && ge(c, n, n, ldc)))
+//@ panics iff !valid, before-writes
+//@ writes c[i*ldc+j] for i in 0..n, j in 0..n if (ul == blas.Upper && j >= i) || (ul == blas.Lower && j <= i)
